@@ -23,6 +23,47 @@ ALPHA = [("def", 0, 1), ("assign", 0, 2), ("read", 0), ("bump", 1001), ("fail",)
          ("req", ("qual", None), 1), ("req", ("qual", None), 6), ("req", ("unqual",), 2), ("req", ("qual", None), 3), ("req", ("qual", 10), 4)]
 
 
+def scope_residue(rep):
+    """a module that is loaded for the first time by a call or a module load that then fails does not keep the failed scope: its own code
+    sees the names of that scope as little as it does in an interpreter that never made the failing call (stated results, implementation only)"""
+    import os
+    import shutil
+    import tempfile
+    from vlib import impl
+    from ckl.values import ValueList, ValueString
+    d = tempfile.mkdtemp(prefix="c10r_", dir=core.WORK if os.path.isdir(core.WORK) else None)
+    bad = 0
+    try:
+        open(os.path.join(d, "c10peek.ckl"), "w").write("def peek() do do leak_q catch all -1 end end;\ndef seen = do leak_q catch all -1 end;\n")
+        open(os.path.join(d, "c10outer.ckl"), "w").write("def leak_q = 5;\nrequire c10peek;\nerror 'boom';\n")
+        open(os.path.join(d, "c10outer2.ckl"), "w").write("def w_q = 1;\ndef leak_q = 6;\nrequire c10peek as pk;\ndef again = pk->peek();\nundefined_zz;\n")
+        scen = [(["(fn(leak_q) do require c10peek; error 'boom' end)(41)"], "require c10peek; [c10peek->peek(), c10peek->seen]", "(list (i -1) (i -1))"),
+                (["def job(leak_q) do require c10peek unqualified; error 'boom' end; job(7)", "job(8)"], "require c10peek; [c10peek->peek(), c10peek->seen]", "(list (i -1) (i -1))"),
+                (["require c10outer"], "require c10peek; [c10peek->peek(), c10peek->seen]", "(list (i -1) (i -1))"),
+                (["require c10outer", "require c10outer"], "def leak_q = 9; require c10peek; [c10peek->peek(), c10peek->seen, leak_q]", "(list (i -1) (i -1) (i 9))"),
+                (["require c10outer2", "require c10outer2"], "require c10peek as z; [z->peek(), z->seen]", "(list (i -1) (i -1))"),
+                (["for leak_q in [1, 2] do require c10peek; error 'boom' end"], "require c10peek; c10peek->peek()", "(i -1)"),
+                (["[do require c10peek; error 'boom' end for leak_q in [3]]"], "require c10peek; c10peek->peek()", "(i -1)")]
+        for failing, probe, want in scen:
+            I = impl.new_interpreter(False, False)
+            I.base_environment.put("checkerlang_module_path", ValueList().addItem(ValueString(d)))
+            errs = []
+            for f in failing:
+                out = impl.run_src(I, f)
+                errs.append(out[:2])
+                if out[0] != "err":
+                    bad += 1
+                    rep.violation("input", "the failing command %r gave %s" % (f, out[:2]), check="scope-residue", program=f)
+            out = impl.run_src(I, probe)
+            rep.count()
+            if out[:2] != ("val", want) or (len(errs) == 2 and failing[0] == failing[1] and errs[0] != errs[1]):
+                bad += 1
+                rep.violation("input", "after the failed %r: %s gives %s (expected %s; errors %s)" % (failing, probe, out[:2], want, errs), check="scope-residue", program="; ".join(failing) + " ;; " + probe, want=want)
+    finally:
+        shutil.rmtree(d, ignore_errors=True)
+    rep.oblige("a module first loaded by a call / module load that fails keeps nothing of the failed scope (7 scenarios)", bad == 0, "%d wrong" % bad)
+
+
 def main(tier, seed, replay=None):
     rep = Report("C10", tier, seed)
     core.setup_impl_path()
@@ -78,6 +119,7 @@ def main(tier, seed, replay=None):
         rep.nontriv(repr(h))
     rep.sample({"history": [sesscheck.cmd_src(c) for _, c in cases[-1][1]][:10]})
     sesscheck.correspondence(rep, cases, "c10", per_file=80)
+    scope_residue(rep)
     if big:
         core.coqchk(rep, "Ckl.Props.C10")
     return rep.finish()
